@@ -48,6 +48,13 @@ func pureUF(name string) externHandler {
 			if isByteSlice(a.Typ) {
 				t = e.bseqOf(a, st)
 				srt = "BSeq"
+			} else if pt := derefType(a.Typ); pt != nil && isStructValue(pt) {
+				// a pure function of the pointee's value, not of its address
+				t = e.load(st, e.locOfPtr(a))
+				if a.Loc == nil {
+					t = e.loadObject(st, a.T, pt)
+				}
+				srt = e.sortOf(pt)
 			}
 			as = append(as, t)
 			ss = append(ss, srt)
@@ -109,6 +116,14 @@ func init() {
 	atomAdd := func(e *Eng, fr *Frame, c *ssa.CallCommon, args []*Val, st *State, g string, pos token.Pos) *Val {
 		l, cur := e.atomicCell(fr, args[0], st)
 		rt := c.Signature().Results().At(0).Type()
+		if l.Kind == LField {
+			if as := e.spec.Atomics[e.structName(l.ST)+"."+structOf(l.ST).Field(l.Idx).Name()]; as != nil && as.Rely == "nondecreasing" {
+				if _, hi, ok := intRange(rt); ok {
+					e.sc.assume(implies(g, sx("<=", sx("+", cur, args[1].T), hi)), "assumption: counter never wraps")
+					e.note("atomic counter %s assumed never to wrap (stated in the property: incarnations stay below the largest representable value)", as.Key)
+				}
+			}
+		}
 		nv := e.sc.define("atomic_add", "Int", e.wrapInt(sx("+", cur, args[1].T), rt), "atomic add")
 		e.store(st, l, nv, "atomic add")
 		return &Val{T: nv, Typ: rt, KnownLen: -1}
@@ -282,7 +297,7 @@ func init() {
 		e.oblige("index", "BigEndian.Uint16:"+descr(c.Args[len(c.Args)-1], 0), e.safety(fr), pos, g, sx("<=", "2", sx("s_len", b.T)))
 		r, rs := e.elemRegion(types.Typ[types.Uint8])
 		arr := sel(e.get(st, r, rs), sx("s_arr", b.T))
-		at := func(i int) string { return sel(arr, sx("+", sx("s_off", b.T), fmt.Sprint(i))) }
+		at := func(i int) string { return sel(arr, idxAt(sx("s_off", b.T), fmt.Sprint(i))) }
 		n := e.sc.define("be16", "Int", sx("+", sx("*", "256", at(0)), at(1)), "BigEndian.Uint16")
 		v := &Val{T: n, Typ: types.Typ[types.Uint16], KnownLen: -1}
 		e.assumeWF(st, g, v)
@@ -293,7 +308,7 @@ func init() {
 		e.oblige("index", "BigEndian.Uint32:"+descr(c.Args[len(c.Args)-1], 0), e.safety(fr), pos, g, sx("<=", "4", sx("s_len", b.T)))
 		r, rs := e.elemRegion(types.Typ[types.Uint8])
 		arr := sel(e.get(st, r, rs), sx("s_arr", b.T))
-		at := func(i int) string { return sel(arr, sx("+", sx("s_off", b.T), fmt.Sprint(i))) }
+		at := func(i int) string { return sel(arr, idxAt(sx("s_off", b.T), fmt.Sprint(i))) }
 		n := e.sc.define("be32", "Int", sx("+", sx("*", "16777216", at(0)), sx("*", "65536", at(1)), sx("*", "256", at(2)), at(3)), "BigEndian.Uint32")
 		v := &Val{T: n, Typ: types.Typ[types.Uint32], KnownLen: -1}
 		e.assumeWF(st, g, v)
@@ -308,7 +323,7 @@ func init() {
 			arr := sel(cur, sx("s_arr", b.T))
 			for i := 0; i < nbytes; i++ {
 				shift := pow2(int64(8 * (nbytes - 1 - i)))
-				arr = sto(arr, sx("+", sx("s_off", b.T), fmt.Sprint(i)), sx("mod", sx("div", v.T, shift), "256"))
+				arr = sto(arr, idxAt(sx("s_off", b.T), fmt.Sprint(i)), sx("mod", sx("div", v.T, shift), "256"))
 			}
 			e.set(st, r, rs, sto(cur, sx("s_arr", b.T), arr), "BigEndian.Put")
 			return unit
